@@ -53,6 +53,21 @@ def scenario(sc):
     return out
 
 
+def same_header(h, ref):
+    """equal cards by value (a refresh may turn a float into numpy.float64: same value)"""
+    h = dict(h)
+    if set(h) != set(ref):
+        return False
+    for k in ref:
+        try:
+            if not bool(np.all(h[k] == ref[k])):
+                return False
+        except Exception:
+            if repr(h[k]) != repr(ref[k]):
+                return False
+    return True
+
+
 def frame_equal(a, b):
     bad = []
     if a.shape != b.shape or not np.array_equal(a.data, b.data):
@@ -98,9 +113,21 @@ def frames(c):
         routes["slice"] = synth().get_slice(1, c["fchans"] - 1)
         for name, fr in routes.items():
             for how in ("copy", "pickle"):
+                wf0 = fr.waterfall
+                hdr0 = None if wf0 is None else dict(wf0.header)
                 try:
                     before = pickle.loads(pickle.dumps(fr)) if True else None
+                    # being pickled must leave the original as it was: in particular the Waterfall it was loaded with stays attached
+                    if wf0 is not None and (fr.waterfall is not wf0 or not same_header(fr.waterfall.header, hdr0)):
+                        fails.append(["copy-changes-original", "pickling a %s frame %s" % (name, "detached its Waterfall" if fr.waterfall is None else "changed its Waterfall / header")])
+                        fr.waterfall = wf0
                     cp = fr.copy() if how == "copy" else pickle.loads(pickle.dumps(fr))
+                    if wf0 is not None and (fr.waterfall is not wf0 or not same_header(fr.waterfall.header, hdr0)):
+                        fails.append(["copy-changes-original", "%s of a %s frame %s" % (how, name, "detached the original's Waterfall" if fr.waterfall is None else "changed the original's Waterfall / header")])
+                        fr.waterfall = wf0
+                    if how == "copy" and wf0 is not None:
+                        if cp.waterfall is None or cp.waterfall is wf0 or not same_header(cp.waterfall.header, hdr0):
+                            fails.append(["copy-not-equal", "copy() of a %s frame does not carry an equal, separate Waterfall" % name])
                 except Exception as ex:
                     fails.append(["copy-raises", "%s of a %s frame raised %r" % (how, name, ex)]); continue
                 bad = frame_equal(fr, cp)
